@@ -301,11 +301,11 @@ func c06RawHeader(p *core.Prog, r *core.Report) {
 	// who may write the raw buffer
 	type allow struct{ fn, what string }
 	allowed := map[allow]string{
-		{"NewFrame", "store"}:                          "constructor carves Payload and headerBuffer out of the buffer",
-		{"(*Frame).ReadBody", "copy-dst"}:              "copy of the received 16 header bytes (mirror of the wire)",
-		{"(*Frame).WriteOut", "typed.WriteBuffer.Wrap"}: "the layout-checked header writer",
-		{"(*Frame).WriteOut", "io.Writer.Write"}:        "the frame goes to the wire",
-		{"(*CheckedFramePoolForTest).Release", "zeroOut"}: "test pool scrubs a released frame",
+		{"NewFrame", "store"}:                                "constructor carves Payload and headerBuffer out of the buffer",
+		{"(*Frame).ReadBody", "copy-dst"}:                    "copy of the received 16 header bytes (mirror of the wire)",
+		{"(*Frame).WriteOut", "typed.WriteBuffer.Wrap"}:      "the layout-checked header writer",
+		{"(*Frame).WriteOut", "io.Writer.Write"}:             "the frame goes to the wire",
+		{"(*CheckedFramePoolForTest).Release", "zeroOut"}:    "test pool scrubs a released frame",
 		{"(*CheckedFramePoolForTest).Release", "fieldstore"}: "test pool scrubs a released frame",
 	}
 	n := 0
